@@ -22,9 +22,73 @@ ASSUMPTIONS = ["reference V* certified to 1e-9; expected steps from an exact lin
                "flagged absorbing states only; MDP closed and proper over the whole list"]
 
 
+def _shortcut_corridor(case, rng):
+    """HUNDREDS of states handled in one run: a corridor of 260-350 cells (each step costs 1); the first cells also offer a "shortcut"
+    into a side cell from which the goal costs 100 more than along the corridor, the later cells a slower step. The heuristic is exact
+    on the corridor and optimistic by 100 in the side cells, so at those cells the two actions tie in the upper bound until the side
+    cell has been looked at. Whatever order
+    the actions are tried in, the returned policy reaches the goal at the optimal cost (the reference is the corridor length)."""
+    from msdm.algorithms.lrtdp import LRTDP
+    from msdm.core.mdp.mdp import MarkovDecisionProcess
+    from msdm.core.distributions import DictDistribution
+    n_tie, n_tail = rng.choice([(60, 200), (150, 150), (100, 250)])
+    n = n_tie + n_tail
+    GOAL = ("goal", 0)
+
+    class Corridor(MarkovDecisionProcess):
+        discount_rate = 1.0
+        def initial_state_dist(self_): return DictDistribution({("c", 0): 1.0})
+        def actions(self_, s):
+            if s[0] == "c":
+                return ("ahead", "shortcut") if s[1] < n_tie else ("ahead", "slow")
+            return ("on",)
+        def next_state_dist(self_, s, a):
+            if s[0] == "c":
+                if a == "shortcut":
+                    return DictDistribution({("t", s[1]): 1.0})
+                return DictDistribution({(("c", s[1] + 1) if s[1] + 1 < n else GOAL): 1.0})
+            return DictDistribution({GOAL: 1.0})
+        def reward(self_, s, a, ns):
+            if s[0] == "c":
+                return -2.0 if a == "slow" else -1.0
+            return -float(n - s[1] - 1) - 100.0        # a shortcut loses exactly 100
+        def is_absorbing(self_, s): return s == GOAL
+    mdp = Corridor()
+    h = lambda s: 0.0 if s == GOAL else (-float(n - s[1]) if s[0] == "c" else -float(n - s[1] - 1))
+    seed = rng.choice([0, 1, 2, 3, 7, rng.randrange(2 ** 31)])
+    margin = rng.choice([1e-2, 1e-4])
+    case.family = "shortcut-corridor"
+    case.params = dict(n=n, seed=seed, margin=margin, randomize_action_order=True)
+    case.nontrivial = True
+    case.sig("shortcut-corridor", n, seed, margin)
+    case.count("runs_over_hundreds_of_states")
+    res = case.call("LRTDP.plan_on", LRTDP(heuristic=h, seed=seed, randomize_action_order=True, bellman_error_margin=margin).plan_on, mdp)
+    case.count("lrtdp_calls")
+    for k in ("listener_timesteps", "listener_trials", "values_checked_online"):
+        case.count(k, 0)
+    if res is case.FAIL:
+        return
+    case.check(abs(float(res.initial_value) + n) <= margin * n + 1e-9, "initial_value-not-within-margin-of-optimal", f"{res.initial_value!r} vs {-n}")
+    s, total, steps = ("c", 0), 0.0, 0
+    while s != GOAL and steps < 3 * n:
+        d = {a: p for a, p in res.policy.action_dist(s).items() if p > 0}
+        if len(d) != 1:
+            case.fail("policy-not-deterministic-available-action", f"at {s!r}: {d!r}")
+            return
+        a = next(iter(d))
+        ns = next(iter(mdp.next_state_dist(s, a).support))
+        total += mdp.reward(s, a, ns)
+        s, steps = ns, steps + 1
+    case.check(s == GOAL and total >= -n - margin * n - 1e-9, "returned-policy-not-within-margin-of-optimal",
+               lambda: f"corridor of {n}: the policy's return is {total!r} after {steps} steps, optimal {-n}")
+
+
 def run_case(case, rng):
     from msdm.algorithms.lrtdp import LRTDP, LRTDPEventListener
     from mon.gen import build as Bd
+
+    if rng.random() < (0.014 if case.tier == "quick" else 0.001):
+        return _shortcut_corridor(case, rng)
 
     n_max = 12 if case.tier == "thorough" and rng.random() < 0.3 else 7
     tie_family = rng.random() < 0.3
